@@ -42,7 +42,11 @@ pub struct Scanline<V: Vary> {
 pub struct ScanlineIter<V: Vary> {
     y: f32,
     left: <Varyings<V> as Vary>::Iter,
-    right: <f32 as Vary>::Iter,
+    // x coordinates of the left and right edge on the first scanline,
+    // their change per scanline, and the number of scanlines emitted
+    xs0: (f32, f32),
+    dxs_dy: (f32, f32),
+    k: f32,
     dv_dx: <Varyings<V> as Vary>::Diff,
     n: u32,
 }
@@ -74,8 +78,14 @@ impl<V: Vary> Iterator for ScanlineIter<V> {
             return None;
         }
         let v0 = self.left.next()?;
-        let x1 = self.right.next()?;
         let y = self.y;
+
+        // Compute the edge positions from the scanline number rather than by
+        // repeated addition, the rounding error of which would accumulate
+        // over hundreds of scanlines and misplace the edges
+        let x0 = self.xs0.0 + self.k * self.dxs_dy.0;
+        let x1 = self.xs0.1 + self.k * self.dxs_dy.1;
+        self.k += 1.0;
 
         // Find the next pixel centers to the right
         //
@@ -85,7 +95,7 @@ impl<V: Vary> Iterator for ScanlineIter<V> {
         // Similarly, if x_right.fract() < 0.5 that's the "one-past-the-end"
         // pixel, otherwise it's the last covered pixel and the next one is
         // the actual one-past-the-end pixel.
-        let (x0, x1) = (round_up_to_half(v0.0.x()), round_up_to_half(x1));
+        let (x0, x1) = (round_up_to_half(x0), round_up_to_half(x1));
 
         // Adjust v0 to match the rounded x0
         let v0 = v0.lerp(&v0.step(&self.dv_dx), x0 - v0.0.x());
@@ -225,8 +235,10 @@ pub fn scan<V: Vary>(
 
     ScanlineIter {
         y: y0_rounded,
+        xs0: (l0.0.x(), r0),
+        dxs_dy: (dl_dy.0.x(), dr_dy.0.x()),
+        k: 0.0,
         left: l0.vary(dl_dy, None),
-        right: r0.vary(dr_dy.0.x(), None),
         dv_dx,
         n: (y1_rounded - y0_rounded) as u32, // saturates to 0
     }
